@@ -46,15 +46,23 @@ func parseOps(s string) ([]*op, error) {
 			}
 			ops = append(ops, &op{kind: 'A', ts: uint32(atoi(f[1])), mt: str(f[2]), lang: str(f[3])})
 		case "V":
-			if len(f) != 7 {
+			if len(f) != 7 && len(f) != 8 {
 				return nil, bad
 			}
-			ops = append(ops, &op{kind: 'V', k: atoi(f[1]), name: str(f[2]), sps: nl(f[3]), pps: nl(f[4]), incl: f[5] == "1"})
+			o := &op{kind: 'V', k: atoi(f[1]), name: str(f[2]), sps: nl(f[3]), pps: nl(f[4]), incl: f[5] == "1"}
+			if len(f) == 8 {
+				o.exp = parseU64s(f[7])
+			}
+			ops = append(ops, o)
 		case "H":
-			if len(f) != 9 {
+			if len(f) != 9 && len(f) != 10 {
 				return nil, bad
 			}
-			ops = append(ops, &op{kind: 'H', k: atoi(f[1]), name: str(f[2]), vps: nl(f[3]), sps: nl(f[4]), pps: nl(f[5]), sei: nl(f[6]), incl: f[7] == "1"})
+			o := &op{kind: 'H', k: atoi(f[1]), name: str(f[2]), vps: nl(f[3]), sps: nl(f[4]), pps: nl(f[5]), sei: nl(f[6]), incl: f[7] == "1"}
+			if len(f) == 10 {
+				o.exp = parseU64s(f[9])
+			}
+			ops = append(ops, o)
 		case "C":
 			if len(f) != 4 {
 				return nil, bad
